@@ -516,14 +516,17 @@ def step(psi, sh, act, ctx):
             reanchor(psi2, sh2, what)
             canonical = False
     elif kind == 'perm':
-        _, order, chi_max = act
-        order = list(order)
-        inverse = [order.index(k) for k in range(sh.L)]
+        _, perm, chi_max = act
+        perm = list(perm)
+        order, inverse = perm, [perm.index(k) for k in range(sh.L)]
+        doc = psi.permute_sites.__doc__ or ''
+        if 'permute_sites(perm)[perm[i]] = psi[i]' in doc.replace('``', ''):   # (documented: new[i] = old[perm[i]])
+            order, inverse = inverse, order
         sh2.T, sh2.elem, sh2.blocks = D.permute_blocks(sh.T, sh.elem, sh.blocks, order, 'auto')
         alt = sh.copy()     # the inverse convention, to pin down (and explore behind) a mix-up of perm and its inverse
         alt.T, alt.elem, alt.blocks = D.permute_blocks(sh.T, sh.elem, sh.blocks, inverse, 'auto')
         sh2.parent = alt.parent = None
-        err = psi2.permute_sites(order) if chi_max is None else psi2.permute_sites(order, 'auto', {'chi_max': chi_max})
+        err = psi2.permute_sites(perm) if chi_max is None else psi2.permute_sites(perm, 'auto', {'chi_max': chi_max})
         if trunc_check(what, [sh2, alt], psi2, err):
             reanchor(psi2, sh2, what)
             sh2.elem, sh2.blocks = D.site_blocks(psi2.sites)
@@ -539,8 +542,9 @@ def step(psi, sh, act, ctx):
                 except Viol:
                     raise v
                 alt.canon = sh.canon
-                raise Viol(what + ':inverse-convention', 'the result has old site i at position perm[i] (new[perm[i]] = '
-                           'old[i]); documented: psi.permute_sites(perm)[i] = psi[perm[i]]', cont=(psi2, alt))
+                raise Viol(what + ':inverse-convention', 'the result is the permutation by the inverse of the documented '
+                           'one: new site j = old site %r[j], doc-string: %s' % (
+                               inverse, [ln.strip() for ln in doc.split('\n') if 'such that' in ln][:1]), cont=(psi2, alt))
     elif kind == 'add':
         _, okind, ci = act
         alpha, beta = COEFFS[ci]
